@@ -116,6 +116,11 @@ Error query_rw_info(const BaseInst& inst, const Operand_* operands, size_t op_co
   const InstRWInfoData& rw_info = inst_rw_info_table[inst_info.rw_info_index()];
 
   if (inst_info.has_flag(InstDB::kInstFlagConsecutive) && op_count > 2) {
+    // The register list occupies operands [list_first, list_end) - it starts at the first operand and is followed by
+    // a memory operand (LDn/STn), or it's preceded by the destination and followed by the index vector (TBL/TBX).
+    uint32_t list_first = (real_id == Inst::kIdTbl_v || real_id == Inst::kIdTbx_v) ? 1u : 0u;
+    uint32_t list_end = uint32_t(op_count) - 1u;
+
     for (uint32_t i = 0; i < op_count; i++) {
       OpRWInfo& op = out->_operands[i];
       const Operand_& src_op = operands[i];
@@ -125,7 +130,9 @@ Error query_rw_info(const BaseInst& inst, const Operand_* operands, size_t op_co
         continue;
       }
 
-      OpRWFlags rw_flags = i < op_count - 1 ? (OpRWFlags)rw_info.rwx[0] : (OpRWFlags)rw_info.rwx[1];
+      // Operands before the list use their own RWX data, all list registers share one, then the rest follows.
+      uint32_t rwx_index = i < list_first ? i : (i < list_end ? list_first : list_first + 1u);
+      OpRWFlags rw_flags = (OpRWFlags)rw_info.rwx[rwx_index];
 
       op._op_flags = rw_flags & ~(OpRWFlags::kZExt);
       op._phys_id = Reg::kIdBad;
@@ -141,10 +148,13 @@ Error query_rw_info(const BaseInst& inst, const Operand_* operands, size_t op_co
       op._consecutive_lead_count = 0;
 
       if (src_op.is_reg()) {
-        if (i == 0) {
-          op._consecutive_lead_count = uint8_t(op_count - 1);
+        if (i == list_first) {
+          // A list of a single register has no followers, thus it's not a lead.
+          if (list_end - list_first > 1u) {
+            op._consecutive_lead_count = uint8_t(list_end - list_first);
+          }
         }
-        else {
+        else if (i > list_first && i < list_end) {
           op.add_op_flags(OpRWFlags::kConsecutive);
         }
 
